@@ -1,9 +1,9 @@
-import PnVerif.Lemmas.AccessLemmas
+import PnVerif.Lemmas.ScsLemmas
 /-
   C15 — out-of-range requests are rejected with the documented error; accepted requests address
   only elements of the addressed variable; rejected and zero-length requests touch nothing.
 
-  Model: Model/Access.lean (literal transcription of check_start_count_stride & friends of
+  Model: Model/Scs.lean (literal transcription of check_start_count_stride & friends of
   src/dispatchers/var_getput.m4, row-major element addressing).  Spec: Spec/InBounds.lean.
   Tie to the source: checks/c15.py runs the real static checker and the public put/get API on the
   same requests as the Lean driver (Driver/C15.lean).
@@ -14,7 +14,7 @@ import PnVerif.Lemmas.AccessLemmas
     * `r.hasStride → c.needCount` – a stride vector only exists in the vars/varm forms
 -/
 namespace PnVerif.Props.C15
-open PnVerif.Access PnVerif.Spec.InBounds
+open PnVerif.Scs PnVerif.Spec.InBounds
 
 /-- **Acceptance is exactly InBounds** (over the integers, i.e. when the C arithmetic does not
     overflow – see `checkSCS_iff_partial` for the explicit envelope). -/
